@@ -54,7 +54,13 @@ Lemma atan2_00 : Ratan2 0 0 = 0.
 Proof. unfold Ratan2. destruct (Rlt_dec 0 0); [lra|]. reflexivity. Qed.
 
 Lemma to_radians_degrees (a : R) : to_radians (to_degrees a) = a.
-Proof. unfold to_radians, to_degrees. rnum. field. pose proof PI_RGT_0. lra. Qed.
+Proof.
+  unfold to_radians, to_degrees, deg_per_rad. rnum.
+  assert (E : Reqb (/ IZR (2 ^ 52)) (1 / 8388608) = false).
+  { unfold Reqb. destruct (Req_EM_T (/ IZR (2 ^ 52)) (1 / 8388608)) as [H|H]; [exfalso|reflexivity].
+    change (IZR (2 ^ 52)) with 4503599627370496 in H. lra. }
+  rewrite E. field. pose proof PI_RGT_0. lra.
+Qed.
 
 (** rotations acting on points *)
 Lemma rotate_y_pt (deg : R) (p : V) : tr_pt (tr_rotate_y deg) p =
